@@ -1063,14 +1063,33 @@ func (db *DB) ConnectionPoolStats(sqlDB *sql.DB) *PoolStats {
 }
 
 // ColumnNames returns the names of all columns in the given table.
+//
+// The names are read from the rows PRAGMA table_xinfo produces, not from the
+// column metadata of a prepared "SELECT *": such metadata is taken before the
+// statement runs, which is before the read connection notices a schema change
+// made through the write connection, so it can describe the previous definition
+// of the table.
 func (db *DB) ColumnNames(table string) ([]string, error) {
 	rows, err := db.queryStmtWithConn(context.Background(), &command.Statement{
-		Sql: fmt.Sprintf(`SELECT * FROM "%s" LIMIT 0`, strings.ReplaceAll(table, `"`, `""`)),
+		Sql: fmt.Sprintf(`PRAGMA table_xinfo("%s")`, strings.ReplaceAll(table, `"`, `""`)),
 	}, false, db.roDB)
 	if err != nil {
 		return nil, err
 	}
-	return rows.Columns, nil
+	if len(rows.Values) < 1 {
+		return nil, fmt.Errorf("no such table: %s", table)
+	}
+	names := make([]string, 0, len(rows.Values))
+	for _, v := range rows.Values {
+		if len(v.Parameters) < 7 {
+			return nil, fmt.Errorf("unexpected result from PRAGMA table_xinfo")
+		}
+		if v.Parameters[6].GetI() == 1 {
+			continue // hidden column of a virtual table, not part of "SELECT *"
+		}
+		names = append(names, v.Parameters[1].GetS())
+	}
+	return names, nil
 }
 
 // TableColumnTypes returns the declared types of all columns in the given table.
